@@ -242,6 +242,15 @@ func ImpostorPubJSON(material, kid int) string {
 	return string(b)
 }
 
+// PubKeyNoKidJSON is the public JWK of pool key i without a key id.
+func PubKeyNoKidJSON(i int) string {
+	var m map[string]any
+	json.Unmarshal([]byte(PubKeyJSON(i)), &m)
+	delete(m, "kid")
+	b, _ := json.Marshal(m)
+	return string(b)
+}
+
 // PublicOnlyAsPrivate is a "private key" object that only holds the public part.
 func PublicOnlyAsPrivate(i int) *dsig.PrivateKey {
 	k := new(dsig.PrivateKey)
